@@ -141,6 +141,19 @@ func c06Check(c *ctx, name, text string, k int) (accepted bool, T *lr.ParsingTab
 	bad := func(obs, exp string) {
 		c.violate(violation{Case: name, Input: text, Observed: obs, Expected: exp, Note: "productions: " + prodsOf(o.Prods) + " ; levels: " + renderPrec(o.Prec)})
 	}
+	// the grammar AS WRITTEN, translated independently: an LALR(1) grammar must not be rejected because of the way the
+	// extended operators were expanded (e.g. two synthesised rules for one alternation written in two orders)
+	if rd := refRead(text); err != nil && rd.Tree != nil && !rd.Scan.Masked && c01Sig(rd.Tree) == "" && len(ref.unresolved) > 0 {
+		g2, prec2 := refTranslate(rd.Tree)
+		if len(unproductive(g2.Prods)) == 0 && len(cyclicNTs(g2.Prods)) == 0 {
+			ref2 := buildLALR(g2, prec2)
+			c.count("rejections_cross_checked_with_an_independent_translation", 1)
+			if ref2.multiway == 0 && len(ref2.unresolved) == 0 {
+				bad("rejected: "+firstLines(err.Error(), 5), fmt.Sprintf("accepted: translated the textbook way (one rule per operator and set of alternatives) the grammar as written is LALR(1) (%d states, %d conflicts decided by directives, none left)", ref2.nstates, ref2.decided))
+				return
+			}
+		}
+	}
 	if err != nil {
 		c.count("rejected", 1)
 		msg := err.Error()
@@ -303,6 +316,141 @@ func describeActs(g *cgrammar, acts []lrAction) string {
 		}
 	}
 	return strings.Join(xs, " / ")
+}
+
+// refTranslate is an independent EBNF -> plain CFG translation of the text as written: one synthesised non-terminal
+// per (operator, set of alternatives), expanded the textbook way (opt: x | eps; star: S x | eps; plus: P x | x).
+func refTranslate(g *rgrammar) (*cgrammar, []precLevel) {
+	var prods []cprod
+	seenProd := map[string]bool{}
+	ntSet := map[string]bool{}
+	termSet := map[string]bool{}
+	addProd := func(head string, body []string) {
+		p := cprod{Head: head, Body: body}
+		if !seenProd[p.String()] {
+			seenProd[p.String()] = true
+			prods = append(prods, p)
+		}
+		ntSet[head] = true
+	}
+	var alternatives func(e *rexpr) [][]string
+	var symbolOf func(e *rexpr) []string
+	symbolOf = func(e *rexpr) []string {
+		switch e.Kind {
+		case xNonTerm:
+			ntSet[e.Name] = true
+			return []string{e.Name}
+		case xString, xToken:
+			termSet["t:"+e.Name] = true
+			return []string{"t:" + e.Name}
+		case xGroup, xOpt, xStar, xPlus:
+			inner := alternatives(e.Kids[0])
+			var keys []string
+			for _, a := range inner {
+				keys = append(keys, strings.Join(a, " "))
+			}
+			sort.Strings(keys)
+			keys = uniqStrings(keys)
+			name := fmt.Sprintf("\x01%d<%s>", e.Kind, strings.Join(keys, "|"))
+			for _, a := range inner {
+				switch e.Kind {
+				case xGroup, xOpt:
+					addProd(name, a)
+				case xStar:
+					addProd(name, append([]string{name}, a...))
+				case xPlus:
+					addProd(name, append([]string{name}, a...))
+					addProd(name, a)
+				}
+			}
+			if e.Kind == xOpt || e.Kind == xStar {
+				addProd(name, nil)
+			}
+			return []string{name}
+		}
+		return nil
+	}
+	alternatives = func(e *rexpr) [][]string {
+		if e == nil {
+			return [][]string{nil}
+		}
+		switch e.Kind {
+		case xConcat:
+			out := [][]string{nil}
+			for _, k := range e.Kids {
+				var next [][]string
+				for _, a := range out {
+					for _, b := range alternatives(k) {
+						next = append(next, append(append([]string{}, a...), b...))
+					}
+				}
+				out = next
+			}
+			return out
+		case xAlt:
+			var out [][]string
+			for _, k := range e.Kids {
+				out = append(out, alternatives(k)...)
+			}
+			return out
+		case xEmpty:
+			return [][]string{nil}
+		}
+		return [][]string{symbolOf(e)}
+	}
+	var prec []precLevel
+	type pend struct {
+		level int
+		head  string
+		alts  [][]string
+	}
+	var pending []pend
+	for _, d := range g.Decls {
+		switch d.Kind {
+		case "rule":
+			for _, a := range alternatives(d.Rule.RHS) {
+				addProd(d.Rule.LHS, a)
+			}
+		case "token":
+			termSet["t:"+d.Name] = true
+		case "directive":
+			pl := precLevel{Assoc: strings.TrimPrefix(d.Assoc, "@"), Terms: map[string]bool{}, ProdIdx: map[int]bool{}}
+			for _, h := range d.Handles {
+				if h.IsRule {
+					alts := alternatives(h.Rule.RHS)
+					for _, a := range alts {
+						addProd(h.Rule.LHS, a)
+					}
+					pending = append(pending, pend{len(prec), h.Rule.LHS, alts})
+				} else {
+					pl.Terms["t:"+h.Term] = true
+					termSet["t:"+h.Term] = true
+				}
+			}
+			prec = append(prec, pl)
+		}
+	}
+	idx := map[string]int{}
+	for i, p := range prods {
+		idx[p.String()] = i
+	}
+	for _, pe := range pending {
+		for _, a := range pe.alts {
+			if i, ok := idx[(cprod{Head: pe.head, Body: a}).String()]; ok {
+				prec[pe.level].ProdIdx[i] = true
+			}
+		}
+	}
+	var terms, nts []string
+	for t := range termSet {
+		terms = append(terms, t)
+	}
+	for n := range ntSet {
+		nts = append(nts, n)
+	}
+	sort.Strings(terms)
+	sort.Strings(nts)
+	return newCGrammar(terms, nts, prods, "start"), prec
 }
 
 // ---------------------------------------------------------------- operator grammars and the Pratt reference
@@ -536,6 +684,11 @@ var c06Families = []struct{ name, text string }{
 	{"reduce-reduce-levels", "grammar g; @left <a = c> ; @left <b = c>; start = a \"1\" | b \"1\"; a = c; b = c; c = \"x\";"},
 	{"lalr-not-slr-with-directives", "grammar g; @left \"c\" \"t\"; start = \"a\" y \"u\" | \"b\" y \"t\" | \"a\" \"c\" \"t\"; y = \"c\";"},
 	{"lalr-not-slr-with-directives-2", "grammar g; @right \"t\" \"c\"; start = \"a\" y \"u\" | \"b\" y \"t\" | \"a\" \"c\" \"t\"; y = \"c\";"},
+	{"alternation-in-two-orders", "grammar g; NUM = /[0-9]/; start = (\"+\" | \"-\") NUM | (\"-\" | \"+\") NUM \"!\";"},
+	{"alternation-in-two-orders-opt", "grammar g; start = [\"a\" | \"b\"] \"x\" | [\"b\" | \"a\"] \"y\";"},
+	{"alternation-in-two-orders-star", "grammar g; start = {\"a\" | \"b\" \"c\"} \"x\" | {\"b\" \"c\" | \"a\"} \"y\";"},
+	{"alternation-in-two-orders-handle", "grammar g; NUM = /[0-9]/; @left <e = e (\"+\" | \"-\") e>; start = e; e = e (\"-\" | \"+\") e | NUM;"},
+	{"juxtaposition-ebnf-like", "grammar g; @left <e = e e>; @left \"a\" \"(\"; @right \"|\"; start = e; e = e e | e \"|\" e | \"a\" | \"(\" e \")\";"},
 	{"plus-over-alternation", "grammar g; start = {{ \"a\" | \"b\" }} \"c\";"},
 	{"nested-closures", "grammar g; start = { [\"a\"] \"b\" } {{ (\"c\" | \"d\") }};"},
 	{"left-and-right-recursion", "grammar g; start = l r; l = l \"a\" | \"a\"; r = \"b\" r | \"b\";"},
